@@ -3,6 +3,8 @@ package harness
 import (
 	"bytes"
 	"fmt"
+	"os"
+	"path/filepath"
 	"sort"
 	"strconv"
 	"strings"
@@ -25,6 +27,7 @@ type SOp struct {
 	N    int64     `json:"n,omitempty"`
 	Str  string    `json:"str,omitempty"`
 	Reps int       `json:"reps,omitempty"`
+	On   bool      `json:"on,omitempty"`
 }
 
 type SProgram struct {
@@ -64,6 +67,8 @@ type SExec struct {
 	prevRO                 bool
 	ROProbes               int
 	snaps                  []string
+	punchEver              bool
+	subBlockWO             map[int]bool  // node -> a sub-block (not 4 KiB aligned) write was acknowledged while it was rebuilding (WO)
 	wseq                   map[int]int64 // per race writer: last sequence number used
 	raceLayout             string        // number of race writers (fixed for the case)
 }
@@ -89,7 +94,7 @@ func NewSExec(p SProgram) (*SExec, error) {
 		return nil, err
 	}
 	x := &SExec{St: st, P: p, Mode: make([]types.Mode, p.Nodes), Live: NewImage(int64(p.Blocks) * Blk),
-		Frozen: map[int]int{}, AttAck: map[int]int{}, AttLog: map[int]int{}, Labels: map[string]int{}, prevRO: true}
+		subBlockWO: map[int]bool{}, Frozen: map[int]int{}, AttAck: map[int]int{}, AttLog: map[int]int{}, Labels: map[string]int{}, prevRO: true}
 	for _, n := range st.Nodes {
 		n.StallFor = sRW + 700*time.Millisecond
 	}
@@ -295,6 +300,7 @@ func (x *SExec) apply(i int, op SOp) *Fail {
 			x.AttAck[n] = len(x.Acked)
 			x.AttLog[n] = len(node.LogCopy())
 			x.Labels["add:ok"]++
+			delete(x.subBlockWO, n)
 		}
 	case "promote":
 		n := op.Node % len(st.Nodes)
@@ -422,10 +428,25 @@ func (x *SExec) apply(i int, op SOp) *Fail {
 			st.Nodes[n].fixDrainer()
 			st.Nodes[n].S.Close()
 		}
+		// a restarting replica resets the flag of a failed rebuild before it
+		// asks to be added again (sync.checkAndResetFailedRebuild)
+		if state, info := st.Nodes[n].S.Status(); state == "closed" && info.Rebuilding {
+			nd := st.Nodes[n]
+			nd.S.SetPreload(false)
+			err := nd.S.Open()
+			nd.S.SetPreload(true)
+			if err == nil {
+				nd.fixDrainer()
+				nd.S.SetRebuilding(false)
+				nd.S.Close()
+			}
+		}
 	case "snapshot":
 		return x.doSnapshot(i, op)
 	case "race":
 		return x.doRace(i, op)
+	case "rebuild":
+		return x.doRebuild(i, op)
 	case "setmode":
 		n := op.Node % len(st.Nodes)
 		addr := st.Nodes[n].Addr
@@ -583,6 +604,13 @@ func (x *SExec) doWrite(i int, op SOp) *Fail {
 				}
 			}
 			x.Acked = append(x.Acked, ackedWrite{Off: off, Len: length, Sum: sum64(data), W: W, A: keys(applied), ARW: arw})
+			if off%Blk != 0 || (off+length)%Blk != 0 {
+				for j := range applied {
+					if modeBefore[j] == types.WO {
+						x.subBlockWO[j] = true
+					}
+				}
+			}
 			x.Labels["write:acked"]++
 		} else if len(applied) > 0 {
 			for s := off / Sec; s < (off+length)/Sec; s++ {
@@ -690,6 +718,9 @@ func (x *SExec) doRead(i int, op SOp) *Fail {
 			return sfail("read|served-by-nobody", "read succeeded but no node log shows it", "C04")
 		}
 		if d := x.Live.Diff(buf, off); d != "" {
+			if x.subBlockWO[served] {
+				return sfail("rebuild|sub-block-write-while-rebuilding|promoted-image-differs", fmt.Sprintf("a write that is not 4 KiB aligned was acknowledged while n%d was rebuilding; a read served by it returned: %s", served, d), "C07")
+			}
 			return sfail("read|stale-or-wrong-data", fmt.Sprintf("read served by n%d (model mode %s): %s", served, x.Mode[served], d), "C04", "C02")
 		}
 		if x.woNode() >= 0 {
@@ -1020,6 +1051,9 @@ func (x *SExec) Finish() *Fail {
 				return sfail("rw-replica-unreadable", err.Error(), "C02", "C04")
 			}
 			if d := x.Live.Diff(buf, 0); d != "" {
+				if x.subBlockWO[j] {
+					return sfail("rebuild|sub-block-write-while-rebuilding|promoted-image-differs", fmt.Sprintf("a write that is not 4 KiB aligned was acknowledged while n%d was rebuilding; its image differs from the acknowledged data: %s", j, d), "C07")
+				}
 				return sfail("rw-replica-image-mismatch", fmt.Sprintf("n%d is RW but its image differs from the acknowledged data: %s", j, d), "C02", "C07", "C04")
 			}
 			counters = append(counters, r.GetRevisionCounter())
@@ -1262,6 +1296,237 @@ func (x *SExec) doRace(i int, op SOp) *Fail {
 				x.Labels["race:snapshot-mid-stream"]++
 			}
 		}
+	}
+	return nil
+}
+
+// ---- C07: rebuild with interleaved foreground writes ---------------------------
+
+// fgWrite issues one fault-free foreground write derived from (seed, phase).
+func (x *SExec) fgWrite(i int, seed, phase int, aligned bool) *Fail {
+	total := x.Live.size() / Sec
+	off := (int64(seed)*7 + int64(phase)*13) % total
+	l := int64(1 + (seed+phase*5)%16)
+	if aligned {
+		off = off / 8 * 8
+		l = (l + 7) / 8 * 8
+	}
+	if off+l > total {
+		l = total - off
+	}
+	return x.doWrite(i*100+phase, SOp{K: "write", Off: off, Len: l, Seed: 1 + (seed+phase)%200})
+}
+
+// doRebuild runs the rebuild protocol for the WO replica with foreground
+// writes before, between the file copies, during UpdateLUNMap and after.
+// op.N = writes per phase, op.Seed = write seed, op.Str = "" | "skipfile" |
+// "verifyfail" (interruptions), op.On = leave hole punching on after the reload.
+func (x *SExec) doRebuild(i int, op SOp) *Fail {
+	st := x.St
+	dst := x.woNode()
+	if dst < 0 {
+		return nil
+	}
+	src := -1
+	for j, m := range x.Mode {
+		if m == types.RW {
+			src = j
+		}
+	}
+	if src < 0 {
+		return nil
+	}
+	if x.readOnly() {
+		op.N = 0 // no foreground writes are possible; the rebuild itself proceeds
+	}
+	s, d := st.Nodes[src], st.Nodes[dst]
+	phase := 0
+	promoted := false
+	writes := func(k int64) *Fail {
+		for q := int64(0); q < k; q++ {
+			phase++
+			if f := x.fgWrite(i, op.Seed, phase, op.Reps == 1); f != nil {
+				return f
+			}
+			if (!promoted && x.Mode[dst] != types.WO) || x.Mode[src] != types.RW {
+				return sfail("rebuild|foreground-write-detached-replica", fmt.Sprintf("a fault-free foreground write during the rebuild changed the membership: %v", x.Mode), "C07", "C05")
+			}
+		}
+		return nil
+	}
+	if f := writes(op.N); f != nil {
+		return f
+	}
+	if err := d.S.SetRebuilding(true); err != nil {
+		return sfail("rebuild|setrebuilding", err.Error(), "C07")
+	}
+	if f := writes(op.N); f != nil {
+		return f
+	}
+	sc, err := s.S.Replica().Chain()
+	if err != nil {
+		return sfail("rebuild|source-chain", err.Error(), "C07")
+	}
+	dc, err := d.S.Replica().Chain()
+	if err != nil {
+		return sfail("rebuild|target-chain", err.Error(), "C07")
+	}
+	if err := CopyFileExact(filepath.Join(s.Dir, sc[0]+".meta"), filepath.Join(d.Dir, dc[0]+".meta")); err != nil {
+		panic(err)
+	}
+	skip := -1
+	if op.Str == "skipfile" && len(sc) > 2 {
+		skip = 1 + op.Seed%(len(sc)-1)
+		// only a snapshot the target does not hold at all is a detectable gap:
+		// the controller verifies chain membership, not content
+		if _, err := os.Stat(filepath.Join(d.Dir, sc[skip])); err == nil {
+			skip = -1
+		}
+	}
+	for k := len(sc) - 1; k >= 1; k-- {
+		if k == skip {
+			continue
+		}
+		for _, suf := range []string{"", ".meta"} {
+			if err := CopyFileExact(filepath.Join(s.Dir, sc[k]+suf), filepath.Join(d.Dir, sc[k]+suf)); err != nil {
+				panic(err)
+			}
+		}
+		if op.N > 0 {
+			if f := writes(1); f != nil {
+				return f
+			}
+		}
+	}
+	d.S.SetPreload(false)
+	rerr := d.S.Reload()
+	d.S.SetPreload(true)
+	d.fixDrainer()
+	if !op.On && !x.punchEver {
+		types.ShouldPunchHoles = false
+	} else {
+		x.punchEver = true
+		x.Labels["rebuild:punching-on"]++
+	}
+	interrupted := ""
+	if rerr != nil {
+		if skip < 0 {
+			return sfail("rebuild|reload-failed", rerr.Error(), "C07")
+		}
+		interrupted = "reload failed: " + rerr.Error()
+	}
+	if interrupted == "" {
+		if err := d.S.Replica().SyncDir(); err != nil {
+			panic(err)
+		}
+		// foreground writes race with the LUN map merge
+		done := make(chan *Fail, 1)
+		nw := op.N
+		go func() { done <- writes(nw) }()
+		lerr := d.S.UpdateLUNMap()
+		if f := <-done; f != nil {
+			return f
+		}
+		if lerr != nil {
+			return sfail("rebuild|updatelunmap", lerr.Error(), "C07")
+		}
+		if op.Str == "verifyfail" {
+			d.FailRest("setreplicamode", 1)
+		}
+		verr := st.C.VerifyRebuildReplica(d.Addr)
+		d.ClearFaults()
+		if verr != nil {
+			if op.Str == "" {
+				return sfail("rebuild|verify-refused", fmt.Sprintf("verification of a complete rebuild failed: %v", verr), "C07")
+			}
+			interrupted = "verify failed: " + verr.Error()
+		} else if skip >= 0 {
+			return sfail("rebuild|verify-accepted-incomplete-chain", fmt.Sprintf("snapshot %s was not transferred but the rebuild was verified", sc[skip]), "C07")
+		}
+	}
+	x.tracef("rebuild n%d from n%d writes/phase=%d %s punch=%v -> %s", dst, src, op.N, op.Str, op.On, map[bool]string{true: "promoted", false: interrupted}[interrupted == ""])
+	if interrupted != "" {
+		// an interrupted rebuild leaves the replica out of the read path, marked rebuilding
+		x.Labels["rebuild:interrupted"]++
+		if m := st.Mode(dst); m == types.RW {
+			return sfail("rebuild|interrupted-but-promoted", "the rebuild was interrupted ("+interrupted+") but the replica is listed RW", "C07")
+		}
+		vm, err := readVolMeta(d.Dir)
+		if err == nil && !vm.Rebuilding {
+			return sfail("rebuild|interrupted-not-marked-rebuilding", "the rebuild was interrupted ("+interrupted+") but the replica's persisted state is not 'rebuilding'", "C07")
+		}
+		before := d.LogLen("read")
+		buf := make([]byte, Blk)
+		for q := 0; q < 2*len(st.Nodes); q++ {
+			st.C.ReadAt(buf, 0)
+		}
+		if d.LogLen("read") != before {
+			return sfail("rebuild|interrupted-replica-served-read", "a read was served by the replica whose rebuild was interrupted", "C07", "C04")
+		}
+		// the harness then lets the replica fail for good (its process would restart)
+		if err := st.C.RemoveReplica(d.Addr); err == nil {
+			x.detach(dst)
+		}
+		return nil
+	}
+	if err := d.S.SetRebuilding(false); err != nil {
+		return sfail("rebuild|setrebuilding-false", err.Error(), "C07")
+	}
+	x.Mode[dst] = types.RW
+	promoted = true
+	x.Labels["promote:ok"]++
+	x.Labels["rebuild:promoted"]++
+	if f := writes(op.N); f != nil {
+		return f
+	}
+	// --- the promoted replica equals its source
+	ca, cb := s.S.Replica().GetRevisionCounter(), d.S.Replica().GetRevisionCounter()
+	if ca != cb {
+		return sfail("rebuild|counter-mismatch", fmt.Sprintf("promoted n%d has revision counter %d, source n%d has %d", dst, cb, src, ca), "C07", "C10")
+	}
+	size := x.Live.size()
+	ba, bb := make([]byte, size), make([]byte, size)
+	if _, err := s.S.ReadAt(ba, 0); err != nil {
+		return sfail("rebuild|source-unreadable", err.Error(), "C07")
+	}
+	if _, err := d.S.ReadAt(bb, 0); err != nil {
+		return sfail("rebuild|target-unreadable", err.Error(), "C07")
+	}
+	if dd := x.Live.Diff(bb, 0); dd != "" {
+		if x.subBlockWO[dst] {
+			return sfail("rebuild|sub-block-write-while-rebuilding|promoted-image-differs", fmt.Sprintf("a write that is not 4 KiB aligned was acknowledged while n%d was rebuilding; the promoted replica's image differs from the acknowledged data: %s", dst, dd), "C07")
+		}
+		return sfail("rebuild|promoted-image-differs", fmt.Sprintf("promoted n%d does not hold every acknowledged write: %s (source n%d: %q)", dst, dd, src, x.Live.Diff(ba, 0)), "C07")
+	}
+	sc2, _ := s.S.Replica().Chain()
+	dc2, _ := d.S.Replica().Chain()
+	if strings.Join(sc2[1:], ",") != strings.Join(dc2[1:], ",") {
+		return sfail("rebuild|chains-differ", fmt.Sprintf("source chain %v, promoted chain %v", sc2, dc2), "C07")
+	}
+	sd := s.S.Replica().ListDisks()
+	for _, snap := range sc2[1:] {
+		if !sd[snap].UserCreated && (op.On || x.punchEver) {
+			continue // automatic snapshots may have been thinned by reclamation
+		}
+		ia, err := ReadDiskImage(s.Dir, snap, size)
+		if err != nil {
+			return sfail("rebuild|snapshot-unreadable", err.Error(), "C07")
+		}
+		ib, err := ReadDiskImage(d.Dir, snap, size)
+		if err != nil {
+			return sfail("rebuild|snapshot-unreadable-on-target", err.Error(), "C07")
+		}
+		if !bytes.Equal(ia, ib) {
+			p := 0
+			for p < len(ia) && ia[p] == ib[p] {
+				p++
+			}
+			return sfail("rebuild|snapshot-differs", fmt.Sprintf("snapshot %s differs between source n%d and promoted n%d at byte %d (block %d)", snap, src, dst, p, p/Blk), "C07")
+		}
+		x.Labels["rebuild:snapshot-compared"]++
+	}
+	if op.On {
+		x.punchEver = true
 	}
 	return nil
 }
